@@ -256,8 +256,8 @@ fn gamma_pq_temme(a: f64, d: f64) -> (f64, f64) {
     let c1 = -1.0 / 540.0
         + eta
             * (-1.0 / 288.0
-                + eta * (1.0 / 378.0 + eta * (-77.0 / 77760.0 + eta * (1.0 / 3240.0))));
-    let c2 = 25.0 / 6048.0 + eta * (-139.0 / 51840.0 + eta * (101.0 / 102060.0));
+                + eta * (1.0 / 378.0 + eta * (-77.0 / 77760.0 + eta * (1.0 / 4860.0))));
+    let c2 = 25.0 / 6048.0 + eta * (-139.0 / 51840.0 + eta * (1.0 / 1296.0));
     let r = (-y).exp() / (SQRT_2PI * a.sqrt()) * (c0 + (c1 + c2 / a) / a);
     let z = (y).sqrt();
     // Q = 1/2 erfc(eta sqrt(a/2)) + r ;  P = 1/2 erfc(-eta sqrt(a/2)) - r
